@@ -249,6 +249,18 @@ func (r *Run) Parallel(n int, fn func(i int)) (done int) {
 	return int(completed)
 }
 
+// Serial runs fn(i) for i in [0,n) one at a time; stops when the budget expires.
+func (r *Run) Serial(n int, fn func(i int)) (done int) {
+	for i := 0; i < n; i++ {
+		if i%64 == 0 && r.Expired() {
+			r.Cap("time budget reached inside a serial enumeration")
+			return i
+		}
+		fn(i)
+	}
+	return n
+}
+
 func loadKnown(prop string) []*Finding {
 	b, err := os.ReadFile(filepath.Join(Root, "known_findings.jsonl"))
 	if err != nil {
